@@ -114,6 +114,7 @@ fn(D + "run_metaepoch", abstract=True, params={"tree": "ref:DemeTree"},
                tags="C02 C06"),
             cl("stops_exactly_when", "self._active == (not (gsc_last(tree) or lsc_last(self) or engine_stop(self)))", tags="C06"),
             cl("an_active_deme_has_a_population", "imp(self._active, len(cur_pop(self)) >= 1 and kind(cur_pop(self)) != 10)", tags="C10 C06"),
+            cl("class_invariant_kept", "imp(self._active, ClassInv(self))", tags="C02 C03 C06"),
             cl("count_matches_clock", "counted(self) - old(counted(self)) >= clock() - old(clock()) and clock() >= old(clock())", tags="C03")])
 
 # ---- the tree: one metaepoch -----------------------------------------------------------------------------------------
